@@ -275,8 +275,11 @@ def run(ctx):
         raise vlib.Inconclusive("no stuck state in the exported as-built graph")
     if any(e.get("stuck") for e in (json.loads(x) for x in res_es.printed if x.startswith("{"))):
         raise vlib.Inconclusive("the strict state graph contains a stuck state")
-    ts, ne_s, ns_s = edges.build_tests([x for x in res_es.printed if x.startswith("{")])
-    ta, ne_a, ns_a = edges.build_tests([x for x in res_ea.printed if x.startswith("{")])
+    def real_edges(res):
+        # (the AtRest stutter of the spec shows up as a self-loop labelled with the previous action: not a transition)
+        return [e for e in (json.loads(x) for x in res.printed if x.startswith("{")) if edges.key(e["from"]) != edges.key(e["to"])]
+    ts, ne_s, ns_s = edges.build_tests(real_edges(res_es))
+    ta, ne_a, ns_a = edges.build_tests(real_edges(res_ea))
     ctx.extra.update(strict_graph=dict(edges=ne_s, states=ns_s), asbuilt_graph=dict(edges=ne_a, states=ns_a), stuck_states_asbuilt=len(wit))
     cs, ca = dedupe([project(p) for p in ts]), dedupe([project(p) for p in ta])
     ctx.extra.update(strict_schedules=len(cs), asbuilt_schedules=len(ca))
